@@ -14,6 +14,7 @@ import (
 	"encoding/json"
 	"fmt"
 	"os"
+	"runtime"
 	"sync"
 	"time"
 
@@ -407,7 +408,7 @@ func run(c *vf.Ctx) {
 	runs := 0
 	for _, g := range []int{2, 4, 8, 16, 32, 64} {
 		for _, off := range []uint32{50, 150, 300} {
-			for rep := 0; rep < c.Pick(1, 6); rep++ {
+			for rep := 0; rep < c.Pick(10, 60); rep++ {
 				events = append(events, map[string]any{"ev": "reset"})
 				events = append(events, concurrentSeal(c, a, b, g, off)...)
 				runs++
@@ -492,6 +493,9 @@ func concurrentSeal(c *vf.Ctx, a, b *world.Party, g int, off uint32) []any {
 				}
 				d, s, err := e.seal("A", cls)
 				out[i] = append(out[i], res{d, cls, s, err})
+				if (i*31+k*17)%5 == 0 {
+					runtime.Gosched() // vary the interleaving: the sealers do not run in lockstep
+				}
 			}
 		}(i)
 	}
